@@ -658,68 +658,36 @@ class Router:
         # 10) if no neighbour exists, i.e. the LocT does not contain a LocTE with the IS_NEIGHBOUR flag set to TRUE,
         # and SCF for the traffic class in the TC field of the Common Header is set, buffer the GBC packet in the BC
         # forwarding packet buffer and omit the execution of further steps;
-        if len(self.location_table.get_neighbours()) > 0 or not common_header.tc.scf:
-            # 11) execute the forwarding algorithm procedures (starting with annex D);
-            area = Area(
-                latitude=gbc_extended_header.latitude,
-                longitude=gbc_extended_header.longitude,
-                a=gbc_extended_header.a,
-                b=gbc_extended_header.b,
-                angle=gbc_extended_header.angle,
-            )
-            packet_transport_type = PacketTransportType(
-                header_type=common_header.ht,
-                header_subtype=common_header.hst,
-            )
-            request = GNDataRequest(
-                area=area, packet_transport_type=packet_transport_type)
-            algorithm = self.gn_forwarding_algorithm_selection(
-                request, sender_gn_addr=gbc_extended_header.so_pv.gn_addr)
-            # 12) if the return value of the forwarding algorithm is 0 (packet is buffered in a forwarding packet
-            # buffer) or -1 (packet is discarded), omit the execution of further steps;
-            if algorithm == GNForwardingAlgorithmResponse.AREA_FORWARDING:
-                # TODO: step 13
-                # 14) pass the GN-PDU to the LL protocol entity; dispatch to §F.2 (SIMPLE/UNSPECIFIED)
-                # or §F.3 (CBF) based on itsGnAreaForwardingAlgorithm.
-                if self.mib.itsGnAreaForwardingAlgorithm == AreaForwardingAlgorithm.CBF:
-                    # §F.3: buffer with timer; _cbf_timeout fires the BCAST re-transmission
-                    self.gn_area_cbf_forwarding(
-                        basic_header, common_header, gbc_extended_header, packet)
-                    return GNDataConfirm(result_code=ResultCode.ACCEPTED)
-                # §F.2 / UNSPECIFIED: simple re-broadcast (BCAST) immediately
-                final_packet: bytes = (
-                    basic_header.encode_to_bytes()
-                    + common_header.encode_to_bytes()
-                    + gbc_extended_header.encode()
-                    + packet
-                )
-                try:
-                    if self.link_layer:
-                        self.link_layer.send(final_packet)
-                except PacketTooLongException:
-                    return GNDataConfirm(
-                        result_code=ResultCode.MAXIMUM_LENGTH_EXCEEDED)
-                except SendingException:
-                    return GNDataConfirm(result_code=ResultCode.UNSPECIFIED)
-            elif algorithm == GNForwardingAlgorithmResponse.NON_AREA_FORWARDING:
-                # §E.2: Greedy Forwarding towards area centre (ego outside area)
-                if self.gn_greedy_forwarding(area.latitude, area.longitude, common_header.tc):
-                    naf_packet: bytes = (
-                        basic_header.encode_to_bytes()
-                        + common_header.encode_to_bytes()
-                        + gbc_extended_header.encode()
-                        + packet
-                    )
-                    try:
-                        if self.link_layer:
-                            self.link_layer.send(naf_packet)
-                    except PacketTooLongException:
-                        return GNDataConfirm(
-                            result_code=ResultCode.MAXIMUM_LENGTH_EXCEEDED)
-                    except SendingException:
-                        return GNDataConfirm(result_code=ResultCode.UNSPECIFIED)
-
-        else:
+        # No BC forwarding packet buffer is implemented, so the packet is not held back here; it is never
+        # transmitted without consulting the forwarding algorithm (annex D) either.
+        # 11) execute the forwarding algorithm procedures (starting with annex D);
+        area = Area(
+            latitude=gbc_extended_header.latitude,
+            longitude=gbc_extended_header.longitude,
+            a=gbc_extended_header.a,
+            b=gbc_extended_header.b,
+            angle=gbc_extended_header.angle,
+        )
+        packet_transport_type = PacketTransportType(
+            header_type=common_header.ht,
+            header_subtype=common_header.hst,
+        )
+        request = GNDataRequest(
+            area=area, packet_transport_type=packet_transport_type)
+        algorithm = self.gn_forwarding_algorithm_selection(
+            request, sender_gn_addr=gbc_extended_header.so_pv.gn_addr)
+        # 12) if the return value of the forwarding algorithm is 0 (packet is buffered in a forwarding packet
+        # buffer) or -1 (packet is discarded), omit the execution of further steps;
+        if algorithm == GNForwardingAlgorithmResponse.AREA_FORWARDING:
+            # TODO: step 13
+            # 14) pass the GN-PDU to the LL protocol entity; dispatch to §F.2 (SIMPLE/UNSPECIFIED)
+            # or §F.3 (CBF) based on itsGnAreaForwardingAlgorithm.
+            if self.mib.itsGnAreaForwardingAlgorithm == AreaForwardingAlgorithm.CBF:
+                # §F.3: buffer with timer; _cbf_timeout fires the BCAST re-transmission
+                self.gn_area_cbf_forwarding(
+                    basic_header, common_header, gbc_extended_header, packet)
+                return GNDataConfirm(result_code=ResultCode.ACCEPTED)
+            # §F.2 / UNSPECIFIED: simple re-broadcast (BCAST) immediately
             final_packet: bytes = (
                 basic_header.encode_to_bytes()
                 + common_header.encode_to_bytes()
@@ -734,6 +702,23 @@ class Router:
                     result_code=ResultCode.MAXIMUM_LENGTH_EXCEEDED)
             except SendingException:
                 return GNDataConfirm(result_code=ResultCode.UNSPECIFIED)
+        elif algorithm == GNForwardingAlgorithmResponse.NON_AREA_FORWARDING:
+            # §E.2: Greedy Forwarding towards area centre (ego outside area)
+            if self.gn_greedy_forwarding(area.latitude, area.longitude, common_header.tc):
+                naf_packet: bytes = (
+                    basic_header.encode_to_bytes()
+                    + common_header.encode_to_bytes()
+                    + gbc_extended_header.encode()
+                    + packet
+                )
+                try:
+                    if self.link_layer:
+                        self.link_layer.send(naf_packet)
+                except PacketTooLongException:
+                    return GNDataConfirm(
+                        result_code=ResultCode.MAXIMUM_LENGTH_EXCEEDED)
+                except SendingException:
+                    return GNDataConfirm(result_code=ResultCode.UNSPECIFIED)
         return GNDataConfirm(result_code=ResultCode.ACCEPTED)
 
     def gn_data_request_gac(self, request: GNDataRequest) -> GNDataConfirm:
